@@ -391,8 +391,10 @@ def finish(pid, tier, seed, t0, runs, results, bres, no_verdict):
     if fresh:
         import replay as rp
         os.makedirs(os.path.join(VERIF, 'replays', pid), exist_ok=True)
-        for name, o in fresh:
-            path, found = rp.make_replay(pid, name, o, seed)
+        for k, (name, o) in enumerate(fresh):
+            # the native driver is run for the first few refuted obligations (it is the same driver and the same search for all of
+            # them); the remaining replay files carry the verifier's output and point to the first native run
+            path, found = rp.make_replay(pid, name, o, seed, native=(k < 4))
             violations += 1
             replay_paths.append(path)
             print('VIOLATION property=%s replay=%s%s' % (pid, path, '' if found else ' no-failing-input-found'))
